@@ -9,6 +9,7 @@ EXPLANATION = (
     "clock is strictly monotonic across statements and processes, and `duplicate external id` makes node creation fail. Uniqueness of what a "
     "persisted allocator would hand out is not decided."
     " C32.2: the id map's high-water mark (dense internal ids) and every other engine state begin_write touches is read under the writer mutex."
+    " C32.3: IdMap.e2i is only ever added to."
 )
 
 CREATE = "nervusdb_query::executor::WriteableGraph::create_node"
